@@ -160,4 +160,83 @@ theorem crossings_perm (lo hi : ℚ) : ∀ (sh : List ℕ) (ss es : List ℚ), s
     simp only [List.zip_cons_cons, List.map_cons, List.flatten_cons, dirOf, axes, eventsA, List.map_append] at ih ⊢
     exact List.Perm.append (axis_perm (prodL sh) s (e - s) lo hi (hg (s, e) (by simp))) ih
 
+theorem lin_nonneg (a d lo hi t : ℚ) (hlt : lo < hi) (h1 : 0 ≤ a + lo * d) (h2 : 0 ≤ a + hi * d) (ht1 : lo ≤ t) (ht2 : t ≤ hi) :
+    0 ≤ a + t * d := by
+  by_contra hneg
+  rw [not_le] at hneg
+  have e : (a + t * d) * (hi - lo) = (a + lo * d) * (hi - t) + (a + hi * d) * (t - lo) := by ring
+  have p1 : 0 ≤ (a + lo * d) * (hi - t) := mul_nonneg h1 (sub_nonneg.mpr ht2)
+  have p2 : 0 ≤ (a + hi * d) * (t - lo) := mul_nonneg h2 (sub_nonneg.mpr ht1)
+  have p3 : (a + t * d) * (hi - lo) < 0 := mul_neg_of_neg_of_pos hneg (sub_pos.mpr hlt)
+  linarith
+
+/-- **refinement** (core statement): on a parameter interval `lo < hi` inside the grid, for a generic line (entry point on no
+    grid plane of a moving axis, no two crossing parameters equal) the transcribed traversal emits exactly the list of
+    `(pixel, Δt)` of the independent segment model -/
+theorem traverseFrom_eq_losSeg (shape : List ℕ) (s e : List ℚ) (lo hi : ℚ)
+    (hl1 : shape.length = s.length) (hl2 : s.length = e.length) (hlt : lo < hi)
+    (hnn : ∀ se ∈ s.zip e, 0 ≤ se.1 + lo * (se.2 - se.1) ∧ 0 ≤ se.1 + hi * (se.2 - se.1))
+    (hgen : ∀ se ∈ s.zip e, se.2 - se.1 ≠ 0 → ¬ Cross se.1 (se.2 - se.1) lo)
+    (hnd : ((events shape s (dirOf s e) lo hi).map Prod.fst).Nodup) :
+    traverseFrom shape s (dirOf s e) lo hi = (losSeg shape s e lo hi).map fun p => ((p.1 : ℤ), p.2) := by
+  have hg : GenEntry lo (axes shape s (dirOf s e)) := axes_forall (fun s d => d ≠ 0 → ¬ Cross s d lo) shape s e hgen
+  have hnnlo : ∀ a ∈ axes shape s (dirOf s e), 0 ≤ a.2.1 + lo * a.2.2 :=
+    axes_forall (fun s d => 0 ≤ s + lo * d) shape s e (fun se h => (hnn se h).1)
+  unfold events at hnd
+  generalize hax : axes shape s (dirOf s e) = ax at hg hnnlo hnd
+  generalize hE : eventsA lo hi ax = E at hnd
+  have hperm : (E.mergeSort fun a b => decide (a.1 ≤ b.1)).Perm E := List.mergeSort_perm _ _
+  have hsortedT : (E.mergeSort fun a b => decide (a.1 ≤ b.1)).Pairwise (fun a b => a.1 ≤ b.1) := by
+    have := List.pairwise_mergeSort (le := fun a b : ℚ × ℤ => decide (a.1 ≤ b.1))
+      (by intro a b c; simp only [decide_eq_true_eq]; exact le_trans)
+      (by intro a b; simp only [Bool.or_eq_true, decide_eq_true_eq]; exact le_total _ _) E
+    simpa using this
+  generalize hT : (E.mergeSort fun a b => decide (a.1 ≤ b.1)) = T at hperm hsortedT
+  have hndT : (T.map Prod.fst).Nodup := (hperm.map Prod.fst).nodup_iff.mpr hnd
+  have hltT : (T.map Prod.fst).Pairwise (· < ·) := by
+    rw [List.pairwise_map]
+    have h2 : T.Pairwise (fun a b => a.1 ≠ b.1) := List.pairwise_map.mp hndT
+    exact (hsortedT.and h2).imp (fun h => lt_of_le_of_ne h.1 h.2)
+  have hbT : ∀ e ∈ T, lo < e.1 ∧ e.1 < hi := fun e he => by
+    have := eventsA_bounds lo hi ax hg e (hE ▸ hperm.mem_iff.mp he); exact this
+  -- the code side
+  have hcode : traverseFrom shape s (dirOf s e) lo hi = walkG (fun t => flatF t ax) lo (T.map Prod.fst) hi := by
+    unfold traverseFrom events pos1
+    simp only []
+    rw [hax, hE, hT, zip_cumsum_diffs]
+    rw [walk_eq lo hi ax hg (hE ▸ hnd) T lo (pos1A lo ax) hltT le_rfl hlt (fun e he => (hbT e he).1) (fun e he => (hbT e he).2)
+      (fun e he => hE ▸ hperm.mem_iff.mp he) (fun e he _ => hperm.mem_iff.mpr (hE ▸ he)) ?_, walkF_eq_walkG]
+    intro m hm1 hm2 hm3
+    rw [pos1A_eq_flatF lo ax hnnlo]
+    refine (flatF_const lo m hm1.le ax (noCross_of_no_events lo hi lo m ax hg le_rfl hm2 ?_)).symm
+    rintro e he ⟨_, h2⟩
+    exact absurd (hm3 e (hperm.mem_iff.mpr (hE ▸ he))) (not_lt.mpr h2)
+  -- the independent side
+  have hcr := crossings_perm lo hi shape s e hl1 hl2 hgen
+  rw [hax, hE] at hcr
+  have hsrt : (((s.zip e).map fun se => if se.2 - se.1 = 0 then [] else crossings se.1 (se.2 - se.1) lo hi).flatten).mergeSort
+      (fun a b => decide (a ≤ b)) = T.map Prod.fst := by
+    refine List.Perm.eq_of_pairwise (le := (· ≤ ·)) (fun _ _ _ _ h1 h2 => le_antisymm h1 h2) ?_ (hltT.imp le_of_lt) ?_
+    · have := List.pairwise_mergeSort (le := fun a b : ℚ => decide (a ≤ b))
+        (by intro a b c; simp only [decide_eq_true_eq]; exact le_trans)
+        (by intro a b; simp only [Bool.or_eq_true, decide_eq_true_eq]; exact le_total _ _)
+        (((s.zip e).map fun se => if se.2 - se.1 = 0 then [] else crossings se.1 (se.2 - se.1) lo hi).flatten)
+      simpa using this
+    · exact ((List.mergeSort_perm _ _).trans hcr).trans (hperm.map Prod.fst).symm
+  have hind : (losSeg shape s e lo hi).map (fun p => ((p.1 : ℤ), p.2)) = walkG (pixF shape s e) lo (T.map Prod.fst) hi := by
+    unfold losSeg
+    simp only [List.map_map]
+    rw [hsrt]
+    exact intervals_map_walkG (pixF shape s e) (T.map Prod.fst) lo hi
+  rw [hcode, hind]
+  symm
+  refine walkG_congr _ _ lo hi ?_ (T.map Prod.fst) lo le_rfl hlt.le hlt.le ?_
+  · intro t ht1 ht2
+    rw [← hax]
+    exact pixF_eq_flatF t shape s e (fun se hse =>
+      lin_nonneg se.1 (se.2 - se.1) lo hi t hlt (hnn se hse).1 (hnn se hse).2 ht1 ht2)
+  · intro t ht
+    obtain ⟨e', he', rfl⟩ := List.mem_map.mp ht
+    exact ⟨(hbT e' he').1.le, (hbT e' he').2.le⟩
+
 end NiftyVerif.ResponseLos
